@@ -10,7 +10,7 @@ use serde_json::{json, Value};
 use std::sync::Arc;
 use unicode_normalization::char::{canonical_combining_class, decompose_canonical};
 
-fn check_string(s: &str, problems: &mut Vec<Value>, counts: &mut [u64; 3]) {
+fn check_string(oracle: &Oracle, s: &str, problems: &mut Vec<Value>, counts: &mut [u64; 3]) {
     for p in PROFILES.iter() {
         counts[0] += 1;
         let r = call_profile(p, "enforce", &[s.to_string()]);
@@ -23,6 +23,13 @@ fn check_string(s: &str, problems: &mut Vec<Value>, counts: &mut [u64; 3]) {
             if let Some(m) = c08_check(p, &out) {
                 if problems.len() < 500_000 {
                     problems.push(json!({"p": p, "in": string_to_cps(s), "out": o, "what": m}));
+                }
+            } else if let Some((i, c)) = out.chars().enumerate().find(|(_, c)| matches!(oracle.idp_of(*c as u32), "DISALLOWED" | "UNASSIGNED")) {
+                // the library's own classification of the output can be fooled by state the enforce call left behind:
+                // the derived property computed from the pinned UCD copies decides as well
+                if problems.len() < 500_000 {
+                    problems.push(json!({"p": p, "in": string_to_cps(s), "out": o,
+                                         "what": {"c08": "forbidden", "cp": c as u32, "pos": i, "prop": oracle.idp_of(c as u32), "by": "oracle"}}));
                 }
             }
         } else if r.get("panic").is_some() && problems.len() < 500_000 {
@@ -45,13 +52,23 @@ pub fn main(args: &[String]) {
     for t in 0..threads {
         let lo = t * chunk;
         let hi = std::cmp::min(n - 1, lo + chunk - 1);
+        let o = o.clone();
         hs.push(std::thread::spawn(move || {
             silence_panics();
             let mut problems = Vec::new();
             let mut counts = [0u64; 3];
             for cp in lo..=hi {
                 if let Some(c) = char::from_u32(cp) {
-                    check_string(&c.to_string(), &mut problems, &mut counts);
+                    check_string(&o, &c.to_string(), &mut problems, &mut counts);
+                    // next to the code points that share its low 16 bits (a truncated cache tag answers one for the other)
+                    if cp < 0x10000 {
+                        for other in [cp + 0x100000, cp + 0x10000] {
+                            if let Some(d) = char::from_u32(other) {
+                                check_string(&o, &format!("{}{}", c, d), &mut problems, &mut counts);
+                                check_string(&o, &format!("{}{}", d, c), &mut problems, &mut counts);
+                            }
+                        }
+                    }
                 }
             }
             (problems, counts)
@@ -95,12 +112,12 @@ pub fn main(args: &[String]) {
             bases.truncate(0);
         }
         for (a, b) in bases.iter() {
-            check_string(&vec_to_string(&[*a, *b]), &mut problems, &mut counts);
+            check_string(&o, &vec_to_string(&[*a, *b]), &mut problems, &mut counts);
             pair_count += 1;
         }
         for a in cased.iter() {
             for b in some_marks.iter() {
-                check_string(&vec_to_string(&[*a, *b]), &mut problems, &mut counts);
+                check_string(&o, &vec_to_string(&[*a, *b]), &mut problems, &mut counts);
                 pair_count += 1;
             }
         }
@@ -112,8 +129,8 @@ pub fn main(args: &[String]) {
             }
             if o.sig[cp as usize] & compat_bit != 0 && o.idp_of(cp) == "ID_DIS" {
                 for other in [0x20u32, 0x301, 0x3099, 0x1161] {
-                    check_string(&vec_to_string(&[cp, other]), &mut problems, &mut counts);
-                    check_string(&vec_to_string(&[other, cp]), &mut problems, &mut counts);
+                    check_string(&o, &vec_to_string(&[cp, other]), &mut problems, &mut counts);
+                    check_string(&o, &vec_to_string(&[other, cp]), &mut problems, &mut counts);
                     pair_count += 2;
                 }
             }
